@@ -327,6 +327,12 @@ func (e *Engine) execInstr(st *State, b *ssa.BasicBlock, idx int, in ssa.Instruc
 		xv := e.reg(st, x.X)
 		// iterator: remember the collection
 		fr.regs[x] = Val{K: kTuple, Tup: []Val{xv}, Typ: x.X.Type()}
+		if m, ok := x.X.Type().Underlying().(*types.Map); ok {
+			// ghost set of the keys this iteration has produced so far (`visited` in loop invariants):
+			// Next yields a present key not yet visited and reports the end exactly when none is left
+			visT := &GhostT{Kind: "set", Key: m.Key()}
+			st.ghost["visited"] = term(e.zero(visT), visT)
+		}
 		return true
 	case *ssa.Next:
 		it := e.reg(st, x.Iter)
@@ -346,7 +352,18 @@ func (e *Engine) execInstr(st *State, b *ssa.BasicBlock, idx int, in ssa.Instruc
 			vv := e.heapGet(st, vn, vs)
 			st.assume(fmt.Sprintf("(=> %s (and (not (= %s 0)) (select (select %s %s) %s)))", ok.T, coll.T, h, coll.T, k.T))
 			v = e.loaded(st, term(fmt.Sprintf("(select (select %s %s) %s)", vv, coll.T, k.T), m.Elem()))
-			e.noteAssumption("map iteration yields arbitrary present keys; termination/exhaustiveness of the iteration is not modelled unless an invariant states it")
+			if vis, has := st.ghost["visited"]; has {
+				if g, isSet := vis.Typ.(*GhostT); isSet && g.Kind == "set" && types.Identical(g.Key, m.Key()) {
+					kv := fmt.Sprintf("k!v%d", e.S.fresh)
+					e.S.fresh++
+					// a produced key is new; the iteration ends exactly when every present key has been produced
+					st.assume(fmt.Sprintf("(=> %s (not (select %s %s)))", ok.T, vis.T, k.T))
+					st.assume(fmt.Sprintf("(=> (not %s) (forall ((%s %s)) (! (=> (and (not (= %s 0)) (select (select %s %s) %s)) (select %s %s)) :pattern ((select (select %s %s) %s)) :pattern ((select %s %s)))))",
+						ok.T, kv, e.sortOf(m.Key()), coll.T, h, coll.T, kv, vis.T, kv, h, coll.T, kv, vis.T, kv))
+					st.ghost["visited"] = term(fmt.Sprintf("(ite %s (store %s %s true) %s)", ok.T, vis.T, k.T, vis.T), vis.Typ)
+				}
+			}
+			e.noteAssumption("map iteration yields each present key exactly once in an arbitrary order (ghost set `visited`); the map is not modified while it is ranged over")
 		}
 		fr.regs[x] = Val{K: kTuple, Typ: tup, Tup: []Val{ok, k, v}}
 		return true
@@ -613,8 +630,16 @@ func (e *Engine) sliceOp(st *State, x *ssa.Slice, in ssa.Instruction) Val {
 		}
 		e.boundsCheck(st, in, hi, cp, lbl+".high", true)
 		e.boundsCheck(st, in, lo, hi, lbl+".low", true)
-		return term(fmt.Sprintf("(mk_slice (sl_ref %s) %s %s %s)", xv.T,
-			e.arith("+", fmt.Sprintf("(sl_off %s)", xv.T), lo, tInt), e.arith("-", hi, lo, tInt), e.arith("-", mx, lo, tInt)), x.Type())
+		ns := fmt.Sprintf("(mk_slice (sl_ref %s) %s %s %s)", xv.T,
+			e.arith("+", fmt.Sprintf("(sl_off %s)", xv.T), lo, tInt), e.arith("-", hi, lo, tInt), e.arith("-", mx, lo, tInt))
+		if !e.S.BV && lo != zero {
+			// element i of s[lo:] is element lo+i of s: stated over the index function so that facts about the
+			// elements of s (whose patterns mention sidx(s, .)) are found for the elements of the re-slice
+			iv := fmt.Sprintf("i!r%d", e.S.fresh)
+			e.S.fresh++
+			st.assume(fmt.Sprintf("(forall ((%s Int)) (! (= %s %s) :pattern (%s)))", iv, e.slIdx(ns, iv), e.slIdx(xv.T, fmt.Sprintf("(+ %s %s)", lo, iv)), e.slIdx(ns, iv)))
+		}
+		return term(ns, x.Type())
 	case *types.Pointer:
 		at := t.Elem().Underlying().(*types.Array)
 		p := e.asPtr(st, xv)
